@@ -369,6 +369,16 @@ def r01_5(run, model, only_files=None):
             stmts = loop["body"]["stmts"]
             pushes = [st for st in stmts if st["k"] == "ExprStmt" and st["expr"]["k"] == "MethodCall" and st["expr"]["method"] in ("push", "insert", "extend", "push_back")]
             inner = list(S.find(loop["body"], "For", "While", "Loop"))
+            lpar = S.Parents(loop["body"])
+
+            def recorded_before(x):
+                """the block that ends in this `continue` has already put the element somewhere (the unconstrained row pushed to every case,
+                then `continue`): nothing is skipped"""
+                blk = next((a for a in lpar.ancestors(x) if a["k"] == "Block"), None)
+                if blk is None:
+                    return False
+                return any(c["k"] == "MethodCall" and c["method"] in ("push", "push_back", "extend", "insert") and (c["sp"][0], c["sp"][1]) < (x["sp"][0], x["sp"][1])
+                           for st_ in blk["stmts"] for c in S.walk(st_))
             if not pushes:
                 # the accumulating push may sit inside `if let`s that take the element apart: a `continue` on the way to it skips the element
                 npush = [c for c in S.walk_no_closures(loop["body"]) if c["k"] == "MethodCall" and c["method"] in ("push", "push_back")
@@ -376,7 +386,7 @@ def r01_5(run, model, only_files=None):
                 if npush and f.file in KEEP_FILES and not f.file.endswith("go/dce.rs") and (only_files is None or f.file in only_files):
                     lastp = max(npush, key=lambda c: (c["sp"][0], c["sp"][1]))
                     nconts = [x for x in S.walk_no_closures(loop["body"]) if x["k"] == "Continue" and (x["sp"][0], x["sp"][1]) < (lastp["sp"][0], lastp["sp"][1])
-                              and not any(S.span_contains(l2["sp"], x["sp"]) for l2 in inner)]
+                              and not any(S.span_contains(l2["sp"], x["sp"]) for l2 in inner) and not recorded_before(x)]
                     it0 = S.norm_ws(run.facts.text(f.file, loop["iter"]["sp"]))
                     if nconts and KEEP_LEDGER.get((f.name, it0)) is None:
                         acc0 = S.norm_ws(run.facts.text(f.file, lastp["recv"]["sp"]))
@@ -402,16 +412,6 @@ def r01_5(run, model, only_files=None):
                         nfilter += 1
                 continue
             last = pushes[-1]
-            lpar = S.Parents(loop["body"])
-
-            def recorded_before(x):
-                """the block that ends in this `continue` has already put the element somewhere (the unconstrained row pushed to every case,
-                then `continue`): nothing is skipped"""
-                blk = next((a for a in lpar.ancestors(x) if a["k"] == "Block"), None)
-                if blk is None:
-                    return False
-                return any(c["k"] == "MethodCall" and c["method"] in ("push", "push_back", "extend", "insert") and (c["sp"][0], c["sp"][1]) < (x["sp"][0], x["sp"][1])
-                           for st_ in blk["stmts"] for c in S.walk(st_))
             conts = [x for x in S.walk_no_closures(loop["body"]) if x["k"] == "Continue" and (x["sp"][0], x["sp"][1]) < (last["sp"][0], last["sp"][1])
                      and not any(S.span_contains(l2["sp"], x["sp"]) for l2 in inner) and not recorded_before(x)]
             if f.file not in KEEP_FILES:
